@@ -94,8 +94,17 @@ def cmdline(argv=None):
     except:
         _exit()
     else:
+        # with an output encoding, render() returns bytes
         if output_file:
-            open(output_file, "wt", encoding=output_encoding).write(rendered)
+            if isinstance(rendered, bytes):
+                with open(output_file, "wb") as fp:
+                    fp.write(rendered)
+            else:
+                with open(output_file, "wt", encoding=output_encoding) as fp:
+                    fp.write(rendered)
+        elif isinstance(rendered, bytes):
+            sys.stdout.flush()
+            sys.stdout.buffer.write(rendered)
         else:
             sys.stdout.write(rendered)
 
